@@ -124,7 +124,11 @@ func (c *core) execFunc() (*Response, error) {
 		}
 		return resp, nil
 	case <-c.ctx.Done():
-		atomic.SwapInt32(&done, 1)
+		if atomic.SwapInt32(&done, 1) != 0 {
+			// The request goroutine completed at the same moment and still writes
+			// to resp and errCh: wait for it before both go back to their pools.
+			<-errCh
+		}
 		ReleaseResponse(resp)
 		return nil, ErrTimeoutOrCancel
 	}
